@@ -1,7 +1,7 @@
 (* C06 — Every valid RFC 9535 query is accepted by the parser.  Statements only.
    The whole-language statement is kept visible and is NOT proved (partial): *)
 From Coq Require Import List NArith ZArith Bool.
-From JP Require Import Base Ast Peg Dec2Bin Known Build Concrete BuildFacts NormPath Reference NpParse NpBuild FragParse FragBuild FragWs FragWsBuild GenParse GenBuild FilterParse FilterBuild FilterFacts StrParse StrBuild.
+From JP Require Import Base Ast Peg Dec2Bin Known Build Concrete BuildFacts NormPath Reference NpParse NpBuild FragParse FragBuild FragWs FragWsBuild GenParse GenBuild FilterParse FilterBuild FilterFacts StrParse StrBuild NumParse.
 From JP.gen Require Import Grammar.
 Import ListNotations.
 
@@ -169,6 +169,27 @@ Example C06_string_example :
      = [34; 92;117;68;56;51;68; 92;117;68;101;48;48; 32; 92;117;48;48;69;57; 32; 105;116;39;115; 32; 92;34;120;92;34; 32; 92;92; 32; 92;47; 32; 92;110; 34]%N
   /\ parse_query (36%N :: 91%N :: string_text true its ++ [93%N]) = POk (GCons (SegSel (SelName (string_text true its))) GNil).
 Proof. split; [repeat constructor|]. vm_compute. split; reflexivity. Qed.
+
+(* proved part, whole pipeline: NUMBER literals in every format of the grammar.  A number (NumParse.v) is an integer part
+   (any integer, or -0), an optional fraction (one or more digits) and an optional exponent (e or E, optional sign, one
+   or more digits).  Every number that has a fraction or an exponent -- of any length, with leading zeros in the
+   exponent, with -0 -- whose value is finite is accepted as a comparison literal and read as the binary64 nearest to
+   its decimal value (num_value_spec: Dec2Bin.dec_to_f64 of the digits and the decimal exponent, as f64::from_str);
+   numbers without fraction and exponent are the integers of C06_with_filters_partial *)
+Theorem C06_every_number_as_literal_partial : forall i f e d,
+  frac_ok f -> expo_ok e -> f <> None \/ e <> None -> num_value i f e = Some d ->
+  parse_query ([36; 91; 63; 64; 61; 61]%N ++ num_text i f e ++ [93%N])
+  = POk (GCons (SegSel (SelFilter (FAtom (ACmp OpEq (CSq (SqCur [])) (CLit (LFloat d)))))) GNil).
+Proof. exact number_literal_accepted. Qed.
+Print Assumptions C06_every_number_as_literal_partial.
+
+(* -12.50E+02 = -1250;  1e-0 = 1;  -0.0  (mantissa, binary exponent) *)
+Example C06_number_examples :
+  num_text (IZ (-12)) (Some (53%N, [48%N])) (Some (true, EPlus, (48%N, [50%N]))) = [45; 49; 50; 46; 53; 48; 69; 43; 48; 50]%N
+  /\ num_value (IZ (-12)) (Some (53%N, [48%N])) (Some (true, EPlus, (48%N, [50%N]))) = Some (-5497558138880000, -42)%Z
+  /\ num_value (IZ 1) None (Some (false, EMinus, (48%N, []))) = Some (4503599627370496, -52)%Z
+  /\ num_value INegZero (Some (48%N, [])) None = Some (0, 0)%Z.
+Proof. vm_compute. repeat split; reflexivity. Qed.
 
 (* the parser model, over the grammar generated from the .pest file of this run, accepts the
    RFC's own examples and builds the reference AST (evaluated inside Coq: a test, not the
